@@ -345,8 +345,12 @@ impl SetSpeedTrainSim {
         #[cfg(feature = "logging")]
         log::info!("Solving time step #{}", self.state.i);
         ensure!(
-            self.speed_trace.speed[self.state.i] >= si::Velocity::ZERO,
-            format_dbg!(self.speed_trace.speed[self.state.i] >= si::Velocity::ZERO)
+            self.speed_trace.speed[self.state.i] >= si::Velocity::ZERO
+                && self.speed_trace.speed[self.state.i - 1] >= si::Velocity::ZERO,
+            format_dbg!(
+                self.speed_trace.speed[self.state.i] >= si::Velocity::ZERO
+                    && self.speed_trace.speed[self.state.i - 1] >= si::Velocity::ZERO
+            )
         );
         // set the catenary power limit.  I'm assuming it is 0 at this point.
         self.loco_con
